@@ -200,27 +200,63 @@ def check_deserializing(rep, core):
                  and path_matches(s['rv'].get('adt'), 'crux_core::bridge::request_serde::ResolveSerialized')]
         rep.expect('R02.b', built == [name], 'arity|%s' % name, 'Resolve::%s becomes ResolveSerialized::%s' % (name, name),
                    'Resolve::deserializing maps %s to %s' % (name, built))
-    # the two closures: continuation fed only by the deserialiser's Ok payload
+    # the two closures: the continuation is invoked once, and only with the Ok payload of the deserialiser — directly after `?`,
+    # as the function given to map / and_then on the deserialiser's result, or inside a closure given to them
     n = 0
     for g in core.closures_of(f):
-        conts = [(bb, t) for bb, t in g.calls(*CLOSURE_CALLS) if any(
-            o.kind == 'arg' and any('resolve' in tok for tok in o.suffix) for o in origins(g, t['args'][0]))]
-        if not conts:
+        conts = [u['name'] for u in g.upvars if u['ty'].startswith('alloc::boxed::Box<dyn')]
+        others = [u['name'] for u in g.upvars if not u['ty'].startswith('alloc::boxed::Box<dyn')]
+        if len(conts) != 1 or not others or g.parent != f.path:
             continue
         n += 1
-        cb, ct = conts[0]
-        fed = False
-        for o in origins(g, ct['args'][1]):
-            if o.kind == 'agg' and o.stmt['rv'].get('ak') == 'tuple':
-                inner = origins(g, o.stmt['rv']['ops'][0])
-                fed = bool(inner) and all(x.kind == 'call' and call_matches(x.term, CLOSURE_CALLS) and any(s[0] == 'try' for s in x.steps)
-                                          and any(a.kind == 'arg' and any('func' in tok for tok in a.suffix) for a in origins(g, x.term['args'][0]))
-                                          for x in inner)
-        rep.expect('R02.b', fed and len(conts) == 1, '%s|continuation' % g.kpath,
-                   'the continuation receives `func(deser)?` and is called once',
-                   'in %s the continuation is not fed by the Ok payload of the deserialiser (or is called %d times)' % (g.path, len(conts)))
+        cont = conts[0]
+
+        def from_upvar(fn, operand, name):
+            os = origins(fn, operand, through_casts=True)
+            return bool(os) and all(o.kind == 'arg' and o.n == 1 and any(tok.lstrip('.').lstrip('^') == name for tok in o.suffix) for o in os)
+        deser_calls = [(bb, t) for bb, t in g.calls(*CLOSURE_CALLS) if any(from_upvar(g, t['args'][0], o_) for o_ in others)]
+        invocations = []
+        ok = len(deser_calls) == 1
+        if ok:
+            db, dt = deser_calls[0]
+            # A: called directly
+            for bb, t in g.calls(*CLOSURE_CALLS):
+                if from_upvar(g, t['args'][0], cont):
+                    fed = False
+                    for o in origins(g, t['args'][1]):
+                        if o.kind == 'agg' and o.stmt['rv'].get('ak') == 'tuple':
+                            inner = origins(g, o.stmt['rv']['ops'][0])
+                            fed = bool(inner) and all(x.kind == 'call' and x.bb == db and any(s_[0] == 'try' for s_ in x.steps) for x in inner)
+                    invocations.append(('direct', fed))
+            # B / C: given to a combinator on the deserialiser's result
+            for bb, t in g.calls('core::result::Result::map', 'core::result::Result::and_then'):
+                on_deser = all(o.kind == 'call' and o.bb == db for o in origins(g, t['args'][0])) and bool(origins(g, t['args'][0]))
+                if from_upvar(g, t['args'][1], cont):
+                    invocations.append(('as-function', on_deser))
+                else:
+                    for o in origins(g, t['args'][1]):
+                        if o.kind == 'agg' and o.stmt['rv'].get('ak') == 'closure':
+                            h = core.by_exact(o.stmt['rv']['def'])
+                            if h is None:
+                                continue
+                            for hb, ht in h.calls(*CLOSURE_CALLS):
+                                if from_upvar(h, ht['args'][0], cont):
+                                    fed = False
+                                    for x in origins(h, ht['args'][1]):
+                                        if x.kind == 'agg' and x.stmt['rv'].get('ak') == 'tuple':
+                                            inner = origins(h, x.stmt['rv']['ops'][0])
+                                            fed = bool(inner) and all(y.kind == 'arg' and y.n == 2 and not y.suffix for y in inner)
+                                    invocations.append(('in-closure', fed and on_deser))
+        rep.expect('R02.b', ok and len(invocations) == 1 and invocations[0][1], '%s|continuation' % keypath_noidx(g.kpath),
+                   'the continuation is invoked once (%s) with the Ok payload of the deserialiser' % (invocations[0][0] if invocations else '-'),
+                   'in %s the continuation is not invoked exactly once with the Ok payload of the deserialiser (%s)' % (g.path, invocations))
     if n < 2:
         rep.bad('R02.b', 'closures', 'expected the Once and the Many deserialising closures, found %d' % n)
+
+
+def keypath_noidx(k):
+    import re
+    return re.sub(r'\{closure#\d+\}', '{closure}', k)
 
 
 def check_private_channels(rep, core):
